@@ -670,6 +670,9 @@ pub enum Op {
     MapPre(u8, u8),
     /// Same, but the server entity starts without the replication marker (`Mark` comes later).
     MapPreUnmarked(u8, u8),
+    /// Same as `MapPre`, but for a connected client that is not authorized yet: the game fills
+    /// `ClientEntityMap` on the connection entity ahead of the authorization.
+    MapPreEarly(u8, u8),
     /// Client `c` despawns its pre-spawned entity for `slot` before the mapping arrived.
     DespawnPre(u8, u8),
 }
@@ -713,6 +716,7 @@ impl Op {
             Op::MutBig(s, l) => format!("mutate Big({l}) of e{}", s + 1),
             Op::MapPre(c, s) => format!("prespawn on c{c} + map e{}", s + 1),
             Op::MapPreUnmarked(c, s) => format!("prespawn on c{c} + map unmarked e{}", s + 1),
+            Op::MapPreEarly(c, s) => format!("prespawn on unauthorized c{c} + map e{}", s + 1),
             Op::DespawnPre(c, s) => format!("c{c} despawns its prespawned entity for e{}", s + 1),
         }
     }
@@ -1029,6 +1033,12 @@ impl Sim {
                     && !self.prespawned.contains_key(&(c as usize, s))
                     && self.is_authorized(c as usize)
             }
+            Op::MapPreEarly(c, s) => {
+                self.alive(s).is_none()
+                    && !self.prespawned.contains_key(&(c as usize, s))
+                    && self.clients[c as usize].conn.is_some()
+                    && !self.is_authorized(c as usize)
+            }
             // Only before the mapping reached the client (afterwards the entity is replicated
             // state and despawning it locally is outside the property).
             Op::DespawnPre(c, s) => {
@@ -1114,7 +1124,7 @@ impl Sim {
                     }
                 }
             }
-            Op::MapPre(_, s) | Op::MapPreUnmarked(_, s) => {
+            Op::MapPre(_, s) | Op::MapPreUnmarked(_, s) | Op::MapPreEarly(_, s) => {
                 self.last_edit.insert((s + 1, TA), (v, None));
             }
             Op::InsRef(s, _) => {
@@ -1260,7 +1270,7 @@ impl Sim {
                 self.clients[c as usize].app.world_mut().entity_mut(pre).despawn();
                 self.pre_despawned.insert((c as usize, s));
             }
-            Op::MapPre(c, s) | Op::MapPreUnmarked(c, s) => {
+            Op::MapPre(c, s) | Op::MapPreUnmarked(c, s) | Op::MapPreEarly(c, s) => {
                 // The client spawns its entity in advance; the server spawns its own and
                 // registers the correspondence before the entity is first replicated.
                 // (for odd slots the client entity lives in a re-used slot: generation > 1)
@@ -1272,7 +1282,7 @@ impl Sim {
                 let pre = self.clients[c as usize].app.world_mut().spawn_empty().id();
                 self.prespawned.insert((c as usize, s), pre);
                 let etag = s + 1;
-                let id = if matches!(op, Op::MapPre(..)) {
+                let id = if matches!(op, Op::MapPre(..) | Op::MapPreEarly(..)) {
                     self.server
                         .world_mut()
                         .spawn((Replicated, A(val(etag, TA, v))))
@@ -1282,10 +1292,14 @@ impl Sim {
                 };
                 self.ents[s as usize] = Some(id);
                 let conn = self.clients[c as usize].conn.unwrap();
+                if self.server.world().get::<ClientEntityMap>(conn).is_none() {
+                    // ahead of the authorization the game inserts the component itself
+                    self.server.world_mut().entity_mut(conn).insert(ClientEntityMap::default());
+                }
                 self.server
                     .world_mut()
                     .get_mut::<ClientEntityMap>(conn)
-                    .expect("authorized client has an entity map")
+                    .expect("entity map on the connection")
                     .insert(id, pre);
             }
         }
